@@ -1,10 +1,107 @@
 (* C02 — property theorems.  Only statements, [exact lemma], and Print Assumptions. *)
-From Coq Require Import ZArith List.
+From Coq Require Import ZArith List Bool.
 From FV Require Import Lib.RustInt C02.Model C02.Proofs.
 Import ListNotations.
 Open Scope Z_scope.
 
-Theorem c02_placeholder : True.
-Proof. exact placeholder. Qed.
+(* ValueStack: for every backing store (capacity), both pedantic modes and every sequence of public
+   operations (closures arbitrary), no call panics and 0 <= len <= capacity after every call *)
+Theorem c02_value_stack_total : forall (store : list Z) (ped : bool) (ops : list vop),
+  zlen store <= isize_max -> Forall vop_ok ops ->
+  exists s' obs, vs_run ped ops (mkVS store 0) = Some (s', obs) /\
+                 zlen (vals s') = zlen store /\ 0 <= vlen s' <= zlen store /\
+                 length obs = length ops /\ Forall (fun ob => 0 <= snd ob <= zlen store) obs.
+Proof. exact value_stack_total_lemma. Qed.
 
-Print Assumptions c02_placeholder.
+(* ValueStack behaves as a plain list with the documented error cases (push/peek/pop/clear; dup, swap,
+   roll, apply_unary/binary are compositions of these in the model; copy_index / move_index are covered
+   by totality and by the correspondence only) *)
+Theorem c02_value_stack_refines_list_partial : forall cap s ped v, cap <= isize_max -> vinv cap s ->
+  (if vlen s <? cap
+   then exists s', vs_push v s = Some (s', Ok tt) /\ stk s' = stk s ++ [v] /\ vinv cap s'
+   else vs_push v s = Some (s, Err EOverflow)) /\
+  vs_peek s = match rev (stk s) with x :: _ => Some x | [] => None end /\
+  match rev (stk s) with
+  | x :: r => exists s', vs_pop ped s = Some (s', Ok x) /\ stk s' = rev r /\ vinv cap s'
+  | [] => vs_pop ped s = Some (s, if ped then Err EUnderflow else Ok 0)
+  end /\
+  (exists s', vs_clear s = Some (s', Ok tt) /\ stk s' = []) /\
+  zlen (stk s) = vlen s.
+Proof. exact value_stack_refines_list_partial_lemma. Qed.
+
+(* Decycler<_, D>: never indexes outside [0, D) nor under/overflows its depth (the driver returns Some),
+   behaves exactly as a stack of node ids with the depth cap and the depth/2 test, depth stays in
+   [0, D], and a Leave after a balanced body restores the chain that preceded the matching Enter *)
+Theorem c02_decycler_safe : forall D ops, 0 < D <= isize_max ->
+  dec_drive D (dec_new D) ops = Some (spec_drive D [] ops) /\
+  Forall (fun o => 0 <= snd o <= D) (spec_drive D [] ops) /\
+  (forall chain id body, zlen chain < D -> spec_enter_ok chain id = true ->
+     spec_final D (chain ++ [id]) body = chain ++ [id] ->
+     spec_final D chain (Some id :: body ++ [None]) = chain).
+Proof. exact decycler_safe_lemma. Qed.
+
+(* every Enter-only descent in which all Enters succeed has length <= D *)
+Theorem c02_decycler_depth_limit : forall D s n, 0 <= D ->
+  all_entered (spec_drive D [] (enters s n)) = true -> Z.of_nat n <= D.
+Proof. exact depth_limit_cuts_lemma. Qed.
+
+(* a descent that after P nodes goes round a cycle of length L for ever is rejected within
+   2 * (P/L + 1) * L <= 2 * (P + L) Enters *)
+Theorem c02_decycler_detects_cycle : forall D (s : nat -> Z) (P L : nat), 0 <= D -> (1 <= L)%nat ->
+  (forall i, (P <= i)%nat -> s (i + L)%nat = s i) ->
+  all_entered (spec_drive D [] (enters s (2 * (P / L + 1) * L))) = false /\
+  (2 * (P / L + 1) * L <= 2 * (P + L))%nat.
+Proof. exact cycle_cut_lemma. Qed.
+
+(* CallStack: total on every op sequence; depth stays within [0, 32] *)
+Theorem c02_call_stack_total : forall (ops : list cop) (c : callstack (Z * Z)), cinv c ->
+  exists obs, cs_run ops c = Some obs /\ length obs = length ops.
+Proof. exact call_stack_total_lemma. Qed.
+Theorem c02_call_stack_depth : forall (R : Type) (c : callstack R) (r : R), cinv c ->
+  match cs_push c r with
+  | CsOk _ c' => cinv c' /\ clen c' = clen c + 1
+  | CsOverflow => clen c = CALL_MAX_DEPTH
+  | _ => False
+  end /\
+  match cs_pop c with
+  | CsOk _ c' => cinv c' /\ clen c' = clen c - 1
+  | CsUnderflow => clen c = 0
+  | _ => False
+  end.
+Proof. exact call_stack_depth_lemma. Qed.
+
+(* Engine::run: for EVERY instruction oracle (loop-call counts positive i32), from any state whose call
+   stack and loop budget are well formed: no panic, the loop ends within MAX_RUN_INSTRUCTIONS + 1
+   dispatches (exactly that many when the instruction budget is what stops it), call depth <= 32 at the
+   end, and on success the numbers of backward jumps taken and loop-call iterations granted are <= limit *)
+Theorem c02_run_bounded : forall (S P : Type) (oracle : S -> effect S P),
+  (forall s, count_ok (oracle s)) -> forall m, minv m ->
+  let '(o, n, m', _) := run oracle m in
+  o <> RunOutOfFuel /\ o <> RunPanic /\ 0 <= n <= MAX_RUN_INSTRUCTIONS + 1 /\ cinv (cstack m') /\
+  (o = RunOk -> minv m') /\ (o = RunErrMax -> n = MAX_RUN_INSTRUCTIONS + 1).
+Proof. exact (@run_bounded_lemma). Qed.
+Theorem c02_loop_limit_ok : forall pc cvt_len, 0 <= cvt_len < 4294967296 ->
+  match pc with Some p => 0 <= p < 4294967296 | None => True end ->
+  0 <= loop_limit pc cvt_len /\ loop_limit pc cvt_len + 2147483648 <= usize_max.
+Proof. exact loop_limit_ok. Qed.
+
+(* composite loading: for EVERY component map the recursion needs at most limit + 2 nested frames
+   (never out of fuel), and on maps without a finite descent it reports RecursionLimitExceeded *)
+Theorem c02_composite_load_terminates : forall (glyph_of : Z -> gkind) depth gid, 0 <= depth ->
+  fst (load glyph_of depth gid) <> LoadOutOfFuel /\
+  fst (outline_rec_fuel glyph_of (Z.to_nat (GLYF_COMPOSITE_RECURSION_LIMIT + 2)) depth gid) <> LoadOutOfFuel /\
+  fst (outline glyph_of gid) <> LoadOutOfFuel /\
+  ((forall g, exists c cs, glyph_of g = GComposite (c :: cs)) ->
+     fst (load glyph_of depth gid) = LoadRecursionLimit).
+Proof. exact composite_load_terminates_lemma. Qed.
+
+Print Assumptions c02_value_stack_total.
+Print Assumptions c02_value_stack_refines_list_partial.
+Print Assumptions c02_decycler_safe.
+Print Assumptions c02_decycler_depth_limit.
+Print Assumptions c02_decycler_detects_cycle.
+Print Assumptions c02_call_stack_total.
+Print Assumptions c02_call_stack_depth.
+Print Assumptions c02_run_bounded.
+Print Assumptions c02_loop_limit_ok.
+Print Assumptions c02_composite_load_terminates.
